@@ -20,6 +20,11 @@ def get_kv(resp, key):
     return m.group(1) if m else None
 
 
+def unesc(s):
+    """inverse of the %XX escaping of the line protocol"""
+    return re.sub(rb"%([0-9A-F]{2})", lambda m: bytes([int(m.group(1), 16)]), s.encode())
+
+
 def err_class(resp):
     return "err" if resp.startswith("err") else resp
 
@@ -165,6 +170,16 @@ def proj_rt(op, r):
 
 def proj_pair(op, r):
     return " || ".join(strip_kv(err_class(h), "rt") for h in r.split(" || "))
+
+
+def proj_c10(op, r):
+    return strip_kv(r, "pp")        # the parts round trip of each state belongs to C17
+
+
+def proj_c17(op, r):
+    if op == "hist":
+        return " # ".join((get_kv(p, "pp") or "-") for p in r.split(" # "))
+    return r
 
 
 def proj_c15(op, r):
@@ -400,7 +415,7 @@ def orc_c10(ctx, op, req, impl, model, spec):
         if get_kv(st, "rp") == "0":
             return "after step %d the value does not re-parse to itself" % (i + 1)
         prev = state
-    if spec is not None and impl != spec:
+    if spec is not None and strip_kv(impl, "pp") != strip_kv(spec, "pp"):
         return "differs from the set/map reference model"
     return None
 
@@ -425,7 +440,14 @@ def orc_c12(ctx, op, req, impl, model, spec):
             return "ordering is not antisymmetric"
         return None
     if op == "eqstr":
-        a = req.split(" ")
+        # `ok <li == s> <li.language == s> str=<to_string> lang=<language text>`
+        f = impl.split(" ")
+        want = R.unhex(req.split(" ")[2])
+        st, lg = get_kv(impl, "str"), get_kv(impl, "lang")
+        if st is not None and (f[1] == "1") != (unesc(st) == want):
+            return "LanguageIdentifier == &str is %s but the canonical text is %s" % (f[1], st)
+        if lg is not None and (f[2] == "1") != (unesc(lg) == want):
+            return "Language == &str is %s but the language text is %s" % (f[2], lg)
         return None
     return None
 
@@ -479,6 +501,11 @@ def orc_c15(ctx, op, req, impl, model, spec):
 
 def orc_c17(ctx, op, req, impl, model, spec):
     if not impl.startswith("ok"):
+        return None
+    if op == "hist":
+        for i, st in enumerate(impl.split(" # ")[1:]):
+            if get_kv(st, "pp") == "0":
+                return "after step %d from_parts(into_parts(x)) != x: %s" % (i + 1, get_kv(st, "str"))
         return None
     f = impl.split(" ")
     if op in ("liparts", "locparts") and f[1] != "1":
@@ -629,6 +656,12 @@ def orc_c19(ctx, op, req, impl, model, spec):
         return None
     if op == "serfrom":
         r1, _, r2 = impl.partition(" | ")
+        try:
+            val = json.loads(R.unhex(req.split(" ")[1]).decode("utf-8"))
+            if not isinstance(val, str) and (r1.startswith("ok") or r2.startswith("ok")):
+                return "a non-string JSON value deserialised to %s" % (r1 if r1.startswith("ok") else r2)
+        except Exception:
+            pass
         if r2 == "badjson":
             return None if r1 == "err" else "ill-formed JSON text deserialised to %s" % r1
         if r1 != r2:
@@ -710,7 +743,7 @@ PROPS = {
     "C08": Prop("C08", S(["triples"], "min,limin,liminmax,locmin"), {"min", "limin", "liminmax", "locmin"}, proj_full, orc_c08,
                 design_ref="4/C08"),
     "C09": Prop("C09", [("pairs", None)], {"pair"}, proj_pair, orc_c09, design_ref="4/C09"),
-    "C10": Prop("C10", [("hist", None)], {"hist"}, proj_full, orc_c10, design_ref="4/C10"),
+    "C10": Prop("C10", [("hist", None)], {"hist"}, proj_c10, orc_c10, design_ref="4/C10"),
     "C11": Prop("C11", [("match", None)], {"match", "locmatch", "langmatch", "matchx", "locmatchx"}, proj_full, orc_c11, design_ref="4/C11"),
     "C12": Prop("C12", [("rel", None)], {"rel", "eqstr"}, proj_full, orc_c12, design_ref="4/C12"),
     "C13": Prop("C13", S(["tokens"], "conv") + S(["wf", "near", "raw"], "conv,convx"), {"conv", "convx"}, proj_c13, orc_c13,
@@ -732,7 +765,7 @@ PROPS = {
     "C15": Prop("C15", S(["subtag"], "lang,script,region,variant,langstr") + [("langmisc", None), ("glue_misc", None)],
                 {"lang", "script", "region", "variant", "langstr", "langopt", "langdefault", "rawref"}, proj_c15, orc_c15,
                 design_ref="4/C15"),
-    "C17": Prop("C17", [("parts", None), ("glue_misc", None)], {"liparts", "locparts", "fromparts", "raw", "rawref"}, proj_full, orc_c17,
+    "C17": Prop("C17", [("parts", None), ("glue_misc", None), ("hist", None)], {"liparts", "locparts", "fromparts", "raw", "rawref", "hist"}, proj_c17, orc_c17,
                 design_ref="4/C17"),
 }
 
